@@ -220,8 +220,14 @@ def _escape(repo, rep):
             if not any(r.startswith("attr:expression") or
                        r == "root:self" for r in roots):
                 continue
-            if all("method:group" in c for c in chains):
-                continue   # the text of a matched (empty) ${} itself
+            # a literal piece is cut out of the text by slicing only: its
+            # chain has no call and no match-group step
+            chains = [c for c in chains
+                      if not any(x.startswith("call:") or x == "method:group"
+                                 or x in ("item", "elem", "each")
+                                 for x in c)]
+            if not chains:
+                continue   # the text of a matched ${...} / its expression
             pieces.append((n, chains))
     okp = bool(pieces)
     detail = ""
